@@ -5,7 +5,7 @@ ABORTS = {"", "start", "status", "hosts", "services"}
 
 def _obj_ok(o, ntp):
     return (len(o["scan"]) == 5 and len(o["ints"]) == 5 and len(o["strs"]) == 6 and len(o["tps"]) == 2
-            and all(0 <= p < ntp for p in o["tps"]) and 0 < o["lc"] <= o["st"] < 100000)
+            and all(0 <= p < ntp for p in o["tps"]) and 0 <= o["lc"] <= o["st"] < 100000)
 
 
 def valid(inp):
@@ -18,7 +18,7 @@ def valid(inp):
             return False   # the 150+ host histories are replayed as generated, not shrunk (each candidate costs seconds)
         if not all(_obj_ok(o, ntp) for o in inp["hosts"] + inp["svcs"]):
             return False
-        if not inp["events"]:
+        if not inp["events"] or inp.get("order", "") not in ("", "reversed", "shuffled"):
             return False
         for ev in inp["events"]:
             kind = ev["kind"]
@@ -71,6 +71,13 @@ def classify(inp):
         return None
 
 
+def valid_compose(inp):
+    try:
+        return isinstance(inp["ts"], list) and all(isinstance(v, int) and -1 <= v < 2 ** 40 for v in inp["ts"])
+    except (KeyError, TypeError):
+        return False
+
+
 def shrinker(inp):
     """big steps first: prefixes of the history, chunks of events, unused trailing objects"""
     evs = inp["events"]
@@ -97,12 +104,15 @@ def shrinker(inp):
 PROP = Prop(
     pid="C03",
     coq_props="theories/C03/Props.v",
-    coq_run=["theories/C03/Run.v"],
+    coq_run=["theories/C03/Run.v", "theories/C03/RunCompose.v"],
     streams=[Stream("delta", "c03delta", n_quick=800, n_thorough=5000, shards_thorough=4, valid=valid, classify=classify, shrinker=shrinker,
                     what="a real Peer (InitAllTables) against a scripted backend whose hosts/services mutate; data.UpdateDelta(from,until), "
                          "periodicUpdate, periodicTimeperiodsUpdate single stepped with explicit windows, shifted lastFull*Update and connection "
                          "errors after the status/hosts/services query; GET hosts/services/timeperiods after every step vs C03.Model.step, plus the "
-                         "property itself on the served rows (each row is one version of its object, versions never go back)")],
+                         "property itself on the served rows (each row is one version of its object, versions never go back)"),
+             Stream("compose", "c03compose", n_quick=600, n_thorough=20000, valid=valid_compose,
+                    what="composeTimestampFilter(ts, last_check) of the implementation, entry by entry, vs C03.Filter.compose "
+                         "(the function C03_compose_ts_exact is about) on generated lists incl. 0, duplicates, runs, unsorted")],
     trusted_base=[
         "Coq 8.16.1 kernel, vm_compute (cases evaluation, the non-vacuity Examples and the refutation witness); no native_compute",
         "axioms: none (Print Assumptions: closed under the global context, captured per run)",
